@@ -131,8 +131,12 @@ def r03b(chk, rid='R03.b'):
     blind = (dot.negate() - quoting)
     chk.ob(rid, HELPER, 'uri', 'the scan reaches a refused character wherever it stands', not blind, f'characters {blind!r} stop the scan without triggering quoting')
     fn = m.get('uri')
-    src = ast.unparse(fn)
-    chk.ob(rid, HELPER, 'uri', 'quoted form is produced by helper.string', 'value = string(value)' in src and "'url(%s)' % value" in src, '', shape=True)
+    from sa.absint import Evaluator, Raised
+
+    for v, quoted in (('img.png', False), ('a b.png', True), ('a)b', True), ('q"x', True), ("q'x", True), ('t\tab', True), ('x\x01y', True), ('', False), ('caf\xe9.png', False)):
+        got = Evaluator(fn, module=m).run(value=v)
+        want = 'url(' + (Evaluator(m.get('string'), module=m).run(value=v) if quoted else v) + ')'
+        chk.ob(rid, HELPER, 'uri', f'{v!r} is written ' + ('in the quoted form helper.string produces' if quoted else 'unquoted') + ' (by evaluation)', got == want, f'{got!r}, prescribed {want!r}')
     chk.ob(rid, HELPER, 'uri', "closing parenthesis, quotes and white space are among the quoting triggers", all(ord(c) in quoting for c in ')"\' \t\n'), '')
 
 
